@@ -118,6 +118,8 @@ pub fn analyze_for_qa(
     //Parse the file into a the ast
     let source_unit = solang_parser::parse(&file_contents, file_number).unwrap().0;
 
+    #[cfg(solstat_verif)]
+    crate::verif_shim::yield_point("analyze_for: parsed");
     let locations = match qa {
         QualityAssurance::ConstructorOrder => constructor_order_qa(source_unit),
         QualityAssurance::PrivateVarsLeadingUnderscore => {
@@ -129,6 +131,8 @@ pub fn analyze_for_qa(
         _ => panic!("Location dont recognized"),
     };
 
+    #[cfg(solstat_verif)]
+    crate::verif_shim::yield_point("analyze_for: detected");
     for loc in locations {
         line_numbers.insert(utils::get_line_number(loc.start(), file_contents));
     }
